@@ -103,7 +103,8 @@ def validate(ctx, traces):
             key = json.dumps(v["a"] if isinstance(v["a"], dict) else {}, sort_keys=True)
             x = src.get(key)
             if x is not None and abs(x - v["want"][0] / v["want"][1]) <= 1e-9 * max(1.0, abs(x)):
-                raise Machinery(f"rationalisation artefact in trace {tid} (float {x} vs {v['want']}): enlarge limit_denominator")
+                ctx.artefact(f"C01 trace {tid}: float {x} vs {v['want']}")
+                continue
         ctx.violation({"api": "VariableElimination.query", "clause": v["clause"],
                        "features": {"order": str(t["order_opt"]), "virt": bool(t["virt"])},
                        "case": {"kind": "trace", "trace": {k: t[k] for k in t if not k.startswith("raw_")}},
